@@ -378,6 +378,9 @@ def standin_confusion_maps(tier, seed):
         D = int(np.prod(dims[:2]))
         M = np.roll(np.eye(D), 1, axis=1) if not noisy else 0.6 * np.eye(D) + 0.4 * np.roll(np.eye(D), 2, axis=1)
         cmaps = [{(0, 1): M}, {(1, 0): M}] if len(mq) == 2 else [{(0, 1): M}, {(1, 2): np.roll(np.eye(6), 1, axis=1)}]
+        # entries whose index sets overlap are applied one after the other (as the deferred-measurement form of the circuit does)
+        d0 = dims[0]
+        cmaps.append({(0,): np.roll(np.eye(d0), 1, axis=1), (0, 1): M})
         for cmap in cmaps:
             for digits in itertools.product(*[range(d) for d in dims]):
                 prep = [shift(x.dimension, v).on(x) for x, v in zip(mq, digits) if v]
